@@ -39,39 +39,89 @@ def _mods():
 
 
 # --------------------------------------------------------------------------- CRS pool / records
+def crs_definitions() -> List[Tuple[str, str]]:
+    """(label, definition).  EPSG-coded CRSs in several spellings, and CRSs WITHOUT an EPSG code: custom PROJ strings,
+    datum-less UTM (PROJ identifies it fuzzily as an EPSG code), sinusoidal, LAEA with odd parameters, ESRI WKT and
+    PROJ-string (lossy) spellings of EPSG CRSs, each next to the EPSG codes PROJ's `to_epsg()` guesses for them."""
+    import pyproj
+    from pyproj.enums import WktVersion
+
+    p4326, p3857 = pyproj.CRS.from_epsg(4326), pyproj.CRS.from_epsg(3857)
+    sinu = pyproj.CRS.from_user_input(SINU)
+    return [
+        ("4326", "EPSG:4326"),
+        ("3857", "EPSG:3857"),
+        ("4326wkt2", p4326.to_wkt(version=WktVersion.WKT2_2019)),
+        ("3857json", p3857.to_json()),
+        ("4326lower", "epsg:4326"),
+        ("4326wkt1", p4326.to_wkt(version=WktVersion.WKT1_GDAL)),
+        ("3857esri", p3857.to_wkt(version=WktVersion.WKT1_ESRI)),
+        ("3857wkt2", p3857.to_wkt(version=WktVersion.WKT2_2019)),
+        ("sinu", SINU),
+        ("sinuwkt", sinu.to_wkt()),
+        ("laea", "+proj=laea +lat_0=47.3 +lon_0=14.7 +x_0=1234.5 +y_0=-77 +ellps=GRS80 +units=m +no_defs"),
+        ("laea2", "+proj=laea +lat_0=47.3 +lon_0=14.7 +x_0=1234.5 +y_0=-77 +ellps=WGS84 +units=m +no_defs"),
+        ("utm55s-nodatum", "+proj=utm +zone=55 +south +ellps=GRS80 +units=m +no_defs"),
+        ("7855", "EPSG:7855"),
+        ("28355", "EPSG:28355"),
+        ("3577", "EPSG:3577"),
+        ("3577proj4", pyproj.CRS.from_epsg(3577).to_proj4()),
+        ("9473", "EPSG:9473"),
+        ("32633", "EPSG:32633"),
+        ("32633proj4", "+proj=utm +zone=33 +datum=WGS84 +units=m +no_defs"),
+    ]
+
+
 class Pool:
-    """CRS objects with ground-truth labels; turns a live CRS into the record `CRS.__eq__` can observe."""
+    """CRS objects with ground truth; turns a live CRS into the record `CRS.__eq__` can observe.
+
+    An entry is `(label, truth, crs, lazy)`: `truth` is the class of the definition under pyproj's own exact equality
+    of *fresh* pyproj objects built by the harness (never through odc-geo); `lazy` says that `.epsg` has been read on
+    this very wrapper (label suffix `+read`) — `CRS._epsg` is filled lazily and `CRS.__eq__` looks at it, so every
+    definition appears in both states and every pair in all four combinations."""
+
+    BASE = ("4326", "3857", "4326wkt2", "3857json", "4326lower", "4326wkt1+read")
+    REGIONAL = ("sinu", "sinu+read", "laea", "laea+read", "3857esri", "3857esri+read", "sinuwkt+read")
 
     def __init__(self, thorough: bool):
         import pyproj
-        from pyproj.enums import WktVersion
 
         _, _, CRS, _ = _mods()
-        c4326, c3857 = CRS("EPSG:4326"), CRS("EPSG:3857")
-        wkt1 = CRS(pyproj.CRS.from_epsg(4326).to_wkt(version=WktVersion.WKT1_GDAL))
-        _ = wkt1.epsg  # resolves _epsg to 4326: EPSG branch against 'EPSG:4326', string/pyproj branch against WKT2
-        ents = [
-            ("none", None, None),
-            ("4326", "A", c4326),
-            ("3857", "B", c3857),
-            ("4326wkt2", "A", CRS(c4326.to_wkt())),
-            ("3857json", "B", CRS(pyproj.CRS.from_epsg(3857).to_json())),
-            ("4326lower", "A", CRS("epsg:4326")),
-            ("4326wkt1e", "A", wkt1),
-        ]
+        defs = crs_definitions()
+        fresh = [pyproj.CRS.from_user_input(d) for _, d in defs]
+        reps: List[Any] = []
+        truth: Dict[str, str] = {}
+        for (lab, _), pc in zip(defs, fresh):
+            for k, r in enumerate(reps):
+                if r == pc:
+                    truth[lab] = f"T{k}"
+                    break
+            else:
+                reps.append(pc)
+                truth[lab] = f"T{len(reps) - 1}"
+        self.truth_is_equivalence = all((a == b) == (truth[la] == truth[lb])
+                                        for (la, _), a in zip(defs, fresh) for (lb, _), b in zip(defs, fresh))
+        wide = [("none", None, None, False)]
+        for lab, d in defs:
+            wide.append((lab, truth[lab], CRS(d), False))
+            c = CRS(d)
+            _ = c.epsg  # the lazy slot is now a code, or None
+            wide.append((lab + "+read", truth[lab], c, True))
+        self.wide = wide
+        byl = {e[0]: e for e in wide}
+        self.by_label = byl
+        self.entries = [byl["none"]] + [byl[l] for l in self.BASE]          # all kinds x all pairs
+        self.regional = self.entries + [byl[l] for l in self.REGIONAL]      # valid around lon 1..9, lat 1..9
         if thorough:
-            sinu = CRS(SINU)
-            _ = sinu.epsg  # -> None (falsy, like EPSG_UNSET)
-            ents += [("3857wkt2", "B", CRS(c3857.to_wkt())), ("sinu", "C", sinu), ("sinuwkt", "C", CRS(sinu.to_wkt()))]
-        self.entries = ents
-        self.small = ents[:5]
+            self.entries = self.entries + [byl[l] for l in ("3857wkt2", "sinu+read", "sinuwkt", "laea")]
+        self.small = self.entries[:5]
         self._obj: Dict[int, int] = {}
         self._str: Dict[str, int] = {}
         self._reps: List[Any] = []
         self._keep: List[Any] = []
-        for _, _, c in ents:
-            if c is not None:
-                self.rec(c)
+        for e in wide:
+            if e[2] is not None:
+                self.rec(e[2])
 
     def rec(self, crs) -> str:
         if crs is None:
@@ -93,6 +143,20 @@ class Pool:
             cls = len(self._reps)
         epsg = crs._epsg or 0  # pylint: disable=protected-access
         return f"{self._obj[id(p)]}:{epsg}:{self._str[s]}:{cls}"
+
+    def fuzzy_code_match(self, ea, eb) -> bool:
+        """The one known way `CRS.__eq__` disagrees with pyproj on the unchanged tree: `.epsg` was read on a CRS that is
+        not spelled as an EPSG code, PROJ's fuzzy `to_epsg()` cached a code in `_epsg`, and that code equals the other
+        operand's code although pyproj does not find the two CRSs equal."""
+        a, b = ea[2], eb[2]
+        if a is None or b is None or ea[1] == eb[1]:
+            return False
+        ca, cb = a._epsg or 0, b._epsg or 0  # pylint: disable=protected-access
+        lazy_code = (ea[3] and not a._str.startswith("EPSG:")) or (eb[3] and not b._str.startswith("EPSG:"))  # pylint: disable=protected-access
+        return bool(lazy_code and ca != 0 and ca == cb)
+
+
+KNOWN_FUZZY = "crs-eq-fuzzy-epsg-code-match"
 
 
 def err_str(e: BaseException) -> str:
